@@ -8,22 +8,22 @@ open CC CC.Gen
 refused (ledger as before) -/
 theorem two_allocs (m : Mem) :
     (m.alloc.1 = true ∧ m.alloc.2.alloc.1 = true ∧ m.alloc.2.alloc.2.live = m.live + 2 ∧
-      m.alloc.2.alloc.2.fault = m.fault) ∨
+      m.alloc.2.alloc.2.fault = m.fault ∧ m.alloc.2.alloc.2.libc = m.libc) ∨
     (m.alloc.1 = true ∧ m.alloc.2.alloc.1 = false ∧ MemSame m m.alloc.2.alloc.2.free) ∨
     (m.alloc.1 = false ∧ MemSame m m.alloc.2) := by
   cases h1 : m.alloc.1
   · right; right
     have e := Mem.alloc_fst_false m h1
-    exact ⟨rfl, e.1, e.2.1⟩
+    exact ⟨rfl, e.1, e.2.1, e.2.2⟩
   · have e1 := Mem.alloc_fst_true m h1
     cases h2 : m.alloc.2.alloc.1
     · right; left
       have e2 := Mem.alloc_fst_false m.alloc.2 h2
       have f := free_of_pos m.alloc.2.alloc.2 (by omega)
-      exact ⟨rfl, rfl, by rw [f.1, e2.1, e1.1]; omega, by rw [f.2, e2.2.1, e1.2.1]⟩
+      exact ⟨rfl, rfl, by rw [f.1, e2.1, e1.1]; omega, by rw [f.2.1, e2.2.1, e1.2.1], by rw [f.2.2, e2.2.2, e1.2.2]⟩
     · left
       have e2 := Mem.alloc_fst_true m.alloc.2 h2
-      exact ⟨rfl, rfl, by rw [e2.1, e1.1], by rw [e2.2.1, e1.2.1]⟩
+      exact ⟨rfl, rfl, by rw [e2.1, e1.1], by rw [e2.2.1, e1.2.1], by rw [e2.2.2, e1.2.2]⟩
 
 /-! ### subarray -/
 theorem subarray_inert (a : ArraySized) (b e : Nat) (m : Mem) (hr : e < b ∨ a.size ≤ e) :
@@ -39,14 +39,15 @@ theorem subarray_spec (a : ArraySized) (b e : Nat) (m : Mem) (h : a.Inv) (hb : b
     (∃ s, a.subarray b e m = (.ok, some s, (a.subarray b e m).2.2) ∧ s.Inv ∧
       s.abs = (a.abs.drop b).take (e - b + 1) ∧ s.dataLen = a.dataLen ∧ s.grow = a.grow ∧
       s.capacity = e - b + 1 ∧ s.size = e - b + 1 ∧
-      (a.subarray b e m).2.2.live = m.live + 2 ∧ (a.subarray b e m).2.2.fault = m.fault) ∨
+      (a.subarray b e m).2.2.live = m.live + 2 ∧ (a.subarray b e m).2.2.fault = m.fault ∧
+      (a.subarray b e m).2.2.libc = m.libc) ∨
     ((a.subarray b e m).1 = .errAlloc ∧ (a.subarray b e m).2.1 = none ∧ MemSame m (a.subarray b e m).2.2) := by
   obtain ⟨j1, j2, j3, j4, j5⟩ := h
   unfold subarray
   have : (decide (b > e) || decide (e ≥ a.size)) = false := by simp; omega
   rw [this]
   simp only [Bool.false_eq_true, if_false]
-  rcases two_allocs m with ⟨h1, h2, h3, h4⟩ | ⟨h1, h2, h3⟩ | ⟨h1, h3⟩
+  rcases two_allocs m with ⟨h1, h2, h3, h4, h5⟩ | ⟨h1, h2, h3⟩ | ⟨h1, h3⟩
   · left
     rw [h1, h2]
     simp only [Bool.not_true, Bool.false_eq_true, if_false]
@@ -57,7 +58,7 @@ theorem subarray_spec (a : ArraySized) (b e : Nat) (m : Mem) (h : a.Inv) (hb : b
     have c : (decide ((e - b + 1) * a.dataLen ≤ (fresh (a.capacity * a.dataLen)).length) &&
         decide (a.dataLen * b + (e - b + 1) * a.dataLen ≤ a.buf.length)) = true := by simp only [c1, c2]; simp
     rw [c]
-    refine ⟨_, rfl, ⟨j1, by dsimp only; omega, by dsimp only; omega, ?_, Nat.le_trans (slots_le (by dsimp only; omega)) j5⟩, ?_, rfl, rfl, rfl, rfl, h3, h4⟩
+    refine ⟨_, rfl, ⟨j1, by dsimp only; omega, by dsimp only; omega, ?_, Nat.le_trans (slots_le (by dsimp only; omega)) j5⟩, ?_, rfl, rfl, rfl, rfl, h3, h4, h5⟩
     · simp only [Buf.length_memcpy, fresh, List.length_replicate]; exact slots_le (by omega)
     · rw [abs_eq_elems, abs_eq_elems]
       dsimp only
@@ -83,12 +84,12 @@ theorem subarray_spec (a : ArraySized) (b e : Nat) (m : Mem) (h : a.Inv) (hb : b
 theorem copy_spec (a : ArraySized) (m : Mem) (h : a.Inv) :
     (∃ s, a.copy m = (.ok, some s, (a.copy m).2.2) ∧ s.Inv ∧ s.abs = a.abs ∧ s.dataLen = a.dataLen ∧
       s.grow = a.grow ∧ s.capacity = a.capacity ∧ s.size = a.size ∧
-      (a.copy m).2.2.live = m.live + 2 ∧ (a.copy m).2.2.fault = m.fault) ∨
+      (a.copy m).2.2.live = m.live + 2 ∧ (a.copy m).2.2.fault = m.fault ∧ (a.copy m).2.2.libc = m.libc) ∨
     ((a.copy m).1 = .errAlloc ∧ (a.copy m).2.1 = none ∧ MemSame m (a.copy m).2.2) := by
   obtain ⟨j1, j2, j3, j4, j5⟩ := h
   unfold copy
   dsimp only
-  rcases two_allocs m with ⟨h1, h2, h3, h4⟩ | ⟨h1, h2, h3⟩ | ⟨h1, h3⟩
+  rcases two_allocs m with ⟨h1, h2, h3, h4, h5⟩ | ⟨h1, h2, h3⟩ | ⟨h1, h3⟩
   · left
     rw [h1, h2]
     simp only [Bool.not_true, Bool.false_eq_true, if_false]
@@ -98,7 +99,7 @@ theorem copy_spec (a : ArraySized) (m : Mem) (h : a.Inv) :
     have c : (decide (a.size * a.dataLen ≤ (Buf.mk (a.capacity * a.dataLen) : Buf Nat).length) &&
         decide (a.size * a.dataLen ≤ a.buf.length)) = true := by simp only [c1, c2]; simp
     rw [c]
-    refine ⟨_, rfl, ⟨j1, j2, j3, by simp, j5⟩, ?_, rfl, rfl, rfl, rfl, h3, h4⟩
+    refine ⟨_, rfl, ⟨j1, j2, j3, by simp, j5⟩, ?_, rfl, rfl, rfl, rfl, h3, h4, h5⟩
     rw [abs_eq_elems, abs_eq_elems]
     dsimp only
     apply elems_congr
@@ -179,24 +180,26 @@ predicate sees every element once, first to last -/
 theorem filter_spec (a : ArraySized) (p : List Nat → Bool) (m : Mem) (h : a.Inv) (h0 : 0 < a.size) :
     (∃ s, a.filter p m = (.ok, a.abs, some s, (a.filter p m).2.2.2) ∧ s.Inv ∧ s.abs = a.abs.filter p ∧
       s.dataLen = a.dataLen ∧ s.grow = a.grow ∧ s.capacity = a.capacity ∧
-      (a.filter p m).2.2.2.live = m.live + 2 ∧ (a.filter p m).2.2.2.fault = m.fault) ∨
+      (a.filter p m).2.2.2.live = m.live + 2 ∧ (a.filter p m).2.2.2.fault = m.fault ∧
+      (a.filter p m).2.2.2.libc = m.libc) ∨
     ((a.filter p m).1 = .errAlloc ∧ (a.filter p m).2.2.1 = none ∧ MemSame m (a.filter p m).2.2.2) := by
   have hh := h
   obtain ⟨j1, j2, j3, j4, j5⟩ := h
   unfold filter
   rw [if_neg (by omega)]
   dsimp only
-  rcases two_allocs m with ⟨h1, h2, h3, h4⟩ | ⟨h1, h2, h3⟩ | ⟨h1, h3⟩
+  rcases two_allocs m with ⟨h1, h2, h3, h4, h5⟩ | ⟨h1, h2, h3⟩ | ⟨h1, h3⟩
   · left
     rw [h1, h2]
     simp only [Bool.not_true, Bool.false_eq_true, if_false]
     have hs := filterLoop_spec a p m.alloc.2.alloc.2 hh (a.capacity * a.dataLen) (Nat.le_refl _) a.size 0
       (Buf.mk (a.capacity * a.dataLen)) 0 [] (by omega) (by simp) (Nat.le_refl _) (by simp [elems]) (by simp [elems])
     generalize a.filterLoop p a.size 0 (Buf.mk (a.capacity * a.dataLen)) 0 m.alloc.2.alloc.2 [] = r at hs ⊢
-    refine ⟨{ a with buf := r.1, size := r.2.1 }, ?_, ⟨j1, j2, by dsimp only; omega, by dsimp only; rw [hs.2.2.1]; exact Nat.le_refl _, j5⟩, hs.2.2.2.2, rfl, rfl, rfl, ?_, ?_⟩
+    refine ⟨{ a with buf := r.1, size := r.2.1 }, ?_, ⟨j1, j2, by dsimp only; omega, by dsimp only; rw [hs.2.2.1]; exact Nat.le_refl _, j5⟩, hs.2.2.2.2, rfl, rfl, rfl, ?_, ?_, ?_⟩
     · rw [hs.2.1, hs.1]
     · rw [hs.1]; exact h3
     · rw [hs.1]; exact h4
+    · rw [hs.1]; exact h5
   · right
     rw [h1, h2]
     simp only [Bool.not_true, Bool.false_eq_true, if_false, Bool.not_false, if_true]
@@ -211,7 +214,7 @@ theorem filter_spec (a : ArraySized) (p : List Nat → Bool) (m : Mem) (h : a.In
 theorem add_ok_of_alloc (a : ArraySized) (e : Buf Nat) (m : Mem) (h : a.Inv)
     (he : e.length = a.dataLen) (hal : m.alloc.1 = true) (hc : ¬ a.AtLimit) :
     (a.add e m).1 = .ok ∧ (a.add e m).2.1.abs = a.abs ++ [e] := by
-  rcases add_spec a e m h he with ⟨h1, _, h3, _⟩ | ⟨h1, _, _, _, h5, h6⟩
+  rcases add_spec a e m h he with ⟨h1, _, h3, _⟩ | ⟨h1, _, _, _, h5, h6, _⟩
   · exact ⟨h1, h3⟩
   · rcases h1 with h1 | h1
     · have := h5 h1; rw [hal] at this; cases this
